@@ -3,7 +3,7 @@
    [req] is Rdata::equals, assumed transitive.  A zone is what HashMapTreeZone::new followed by any
    sequence of adds produces ([zone_build]; rejected adds are part of the history). *)
 From QV Require Import Base.Res Base.Octets Gen.ZoneConsts Model.ZoneTree Spec.ZoneLookupS
-  Proofs.ZoneRrsetP Proofs.ZoneTopP Proofs.ZoneIterP Proofs.ZoneIterSmP Proofs.ZoneStoreP.
+  Model.RdataBuf Proofs.ZoneRrsetP Proofs.ZoneTopP Proofs.ZoneIterP Proofs.ZoneIterSmP Proofs.ZoneStoreP Proofs.RdataBufP.
 
 (* the shared runner (Extract/ExZone.v) also extracts the validation model: keep it in this cone so
    that `make Props/...vo` rebuilds everything the extraction loads *)
@@ -79,6 +79,17 @@ Proof. exact build_iter_names_spelled. Qed.
 Theorem c20_iter_state_machine : forall t, node_iter_sm t = Some (node_iter t).
 Proof. exact node_iter_sm_correct. Qed.
 
+(* RdataSetOwned as coded — one octet buffer, every RDATA behind its u16 length, a cursor walking it —
+   is the list of RDATAs the zone model uses, for RDATA of at most 65535 octets (the invariant of the
+   Rdata type): iterating the encoding of a list yields the list, and insert on the buffer is
+   rdataset_insert on the list *)
+Theorem c20_rdataset_buffer : forall l, Forall short l -> buf_rdatas (encode l) = l.
+Proof. exact buf_rdatas_encode. Qed.
+
+Theorem c20_rdataset_insert : forall req cls ty s rd, Forall short s ->
+  buf_insert req cls ty (encode s) rd = encode (rdataset_insert req cls ty s rd).
+Proof. exact buf_insert_encode. Qed.
+
 (* soa() / ns() are the specification's apex SOA / NS RRsets and agree with the first item of the
    iteration (the apex node) *)
 Theorem c20_soa_ns : forall req, req_transitive req ->
@@ -120,3 +131,5 @@ Print Assumptions c20_iter_by_rrset.
 Print Assumptions c20_iter_names_spelled.
 Print Assumptions c20_iter_state_machine.
 Print Assumptions c20_soa_ns.
+Print Assumptions c20_rdataset_buffer.
+Print Assumptions c20_rdataset_insert.
